@@ -618,6 +618,107 @@ func (e *env) eosCase(c Case) {
 	}
 }
 
+func (e *env) recoverCases() {
+	n := e.r.Scale(30, 300)
+	for i := 0; i < n; i++ {
+		e.recoverCase(Case{Kind: "recover", Seed: e.seed, Sub: uint64(i)})
+	}
+}
+
+// recoverCase: a temporary error of the underlying conn is recoverable.
+// (a) the read deadline of the underlying conn fires while the peer is silent (virtual deadline):
+// Read reports the timeout with nothing delivered; the deadline is cleared, the reference server
+// writes, Read delivers exactly those bytes.  (b) a timeout arrives TOGETHER with data: the data is
+// delivered first (any caller buffer), then the timeout exactly once, then later data still flows.
+func (e *env) recoverCase(c Case) {
+	rng := vlib.NewRng(e.seed*2713 + c.Sub*19 + 9)
+	id := "recover"
+	e.call("sess.new %s %s", id, vlib.Hex(e.dhSeed))
+	bufSize := vlib.Pick(rng, []int{1, 7, 512, 4096})
+	withData := c.Sub%2 == 1
+	d1 := rng.Bytes(rng.Range(1, 900))
+	d2 := rng.Bytes(rng.Range(1, 900))
+	var w1 []byte
+	if withData {
+		w1 = e.srvSend(id, spkt{flagData, d1, rng.Intn(10)})
+	} else {
+		d1 = nil
+	}
+	w2 := e.srvSend(id, spkt{flagData, d2, rng.Intn(10)})
+	s, _, _, err := e.connect(c, e.cf, "10.8.0.1:443", 0)
+	if err != nil {
+		e.r.Violate("handshake-fails", "impl-oracle", "plain UniformDH handshake failed: "+err.Error(), c)
+		return
+	}
+	defer s.close()
+	if withData {
+		s.sc.FeedWithErr(w1, vlib.TimeoutError{})
+	} else {
+		// the owner of the underlying conn arms its read deadline; nothing arrives
+		s.sc.FireDeadlines = true
+		s.sc.SetReadDeadline(time.Now().Add(time.Second))
+	}
+	readTillErr := func() (got []byte, rerr error, blocked bool, pan interface{}) {
+		for rerr == nil && pan == nil {
+			var g []byte
+			g, rerr, blocked, pan = s.read(1, bufSize)
+			got = append(got, g...)
+			if blocked {
+				return
+			}
+		}
+		return
+	}
+	got1, err1, _, pan := readTillErr()
+	variant := "deadline-fires-while-silent"
+	if withData {
+		variant = "timeout-together-with-data"
+	}
+	c.Target = fmt.Sprintf("%s/buf%d", variant, bufSize)
+	e.r.Case(fmt.Sprintf("recover/%d/%s/%d/%d/%d", c.Sub, variant, bufSize, len(d1), len(d2)), true)
+	e.r.Count("kind", "recover")
+	e.r.Count("recover_variant", variant)
+	what := fmt.Sprintf("%s, caller buffer %d", variant, bufSize)
+	if pan != nil {
+		e.r.Violate("reader-panic", "impl-oracle", what+fmt.Sprintf(": Read panicked: %v", pan), c)
+		return
+	}
+	if !bytes.Equal(got1, d1) {
+		e.r.Violate("decoded-bytes-dropped-by-error-with-small-buffer", "impl-oracle",
+			what+fmt.Sprintf(": %d payload bytes arrived with the timeout, Read delivered %d before reporting %v", len(d1), len(got1), err1), c)
+		return
+	}
+	var te interface{ Timeout() bool }
+	if err1 == nil || !errors.As(err1, &te) || !te.Timeout() {
+		e.r.Violate("read-error-not-reported", "impl-oracle", what+fmt.Sprintf(": expected the conn's timeout, the reader ended with %v", err1), c)
+		return
+	}
+	// the timeout is over: deadline cleared / error gone, the server writes
+	s.sc.FireDeadlines = false
+	s.sc.SetReadDeadline(time.Time{})
+	s.sc.FeedErr(nil)
+	s.sc.Feed(w2)
+	got2, err2, blocked2, pan2 := readTillErr()
+	if pan2 != nil {
+		e.r.Violate("reader-panic", "impl-oracle", what+fmt.Sprintf(": Read after the timeout panicked: %v", pan2), c)
+		return
+	}
+	if err2 != nil || !blocked2 || !bytes.Equal(got2, d2) {
+		sig := "read-timeout-not-recoverable"
+		if err2 == nil {
+			sig = "stream-not-exact-server-to-client"
+		}
+		e.r.Violate(sig, "impl-oracle",
+			what+fmt.Sprintf(": after the timeout was reported and the deadline cleared the server wrote %d bytes; Read delivered %d (equal=%v) and reported %v", len(d2), len(got2), bytes.Equal(got2, d2), err2), c)
+		return
+	}
+	rep := e.call("cli.recover %s %s %d 3 %s %s", modelReadFixed, vlib.Hex(e.dhSeed), bufSize, vlib.Hex(w1), vlib.Hex(w2))
+	e.r.Validated(1)
+	if rep[0] != "ok" || !bytes.Equal(vlib.UnHex(rep[1]), got1) || rep[2] != "net:3" || !bytes.Equal(vlib.UnHex(rep[3]), got2) || rep[4] != "none" {
+		e.r.Violate("model-impl-disagree-read-error", "correspondence", what+fmt.Sprintf(": implementation %d bytes, timeout, %d bytes; model %v", len(got1), len(got2), []string{rep[2], rep[4]}), c)
+	}
+}
+
 func min(a, b int) int {
 	if a < b {
 		return a
